@@ -392,6 +392,23 @@ def fam_c09(R, n):
     for w, pr in [('abc', 1), ('é', 9), ('k', 0)]:
         out.append(dict(family='c09-explicit', src=enum([], ['#[token(%s, priority = %d)] A,' % (rust_str(w), pr)]), meta=dict(leaf=0, explicit=pr)))
         out.append(dict(family='c09-explicit', src=enum([], ['#[token(%s, priority = %d, ignore(case))] A,' % (rust_str(w), pr + 3)]), meta=dict(leaf=0, explicit=pr + 3)))
+    # several skips on one enum, each with its own default priority (plain, group form, with a callback), next to regexes
+    for skips in [['[ \\t]+', '///[a-z ]*'], ['#', '--[a-z]*', '[ ]'], ['a', 'bb', 'ccc', 'dddd'], ['é+', '/[*][^*]*[*]/']]:
+        for form in ('bare', 'group', 'mixed'):
+            attrs = []
+            for j, sp in enumerate(skips):
+                if form == 'bare' or (form == 'mixed' and j % 2 == 0):
+                    attrs.append('#[logos(skip %s)]' % rust_str(sp))
+                elif form == 'group':
+                    attrs.append('#[logos(skip(%s))]' % rust_str(sp))
+                else:
+                    attrs.append('#[logos(skip(%s, callback = |_| logos::Skip))]' % rust_str(sp))
+            out.append(dict(family='c09-skips', src=enum(attrs, ['#[regex("[0-9]+")] N,', '#[token("zzzz")] Z,']),
+                            meta=dict(complexity_leaves=list(range(len(skips) + 1)), token_leaf=len(skips) + 1, token_len=4,
+                                      leaf_sources=[rust_str(sp) for sp in skips] + ['"[0-9]+"', '"zzzz"'])))
+            out.append(dict(family='c09-skips', src=enum(['#[logos(%s)]' % ', '.join('skip %s' % rust_str(sp) for sp in skips)], ['#[regex("[0-9]+")] N,', '#[token("zzzz")] Z,']),
+                            meta=dict(complexity_leaves=list(range(len(skips) + 1)), token_leaf=len(skips) + 1, token_len=4,
+                                      leaf_sources=[rust_str(sp) for sp in skips] + ['"[0-9]+"', '"zzzz"'])))
     # "a literal token is never beaten on its own text by a regex with default priority: it wins or the derive reports an ambiguity"
     for w, rs in [('if', ['[a-z]+', 'i[a-z]', '..', '[a-z]{2}', 'if|else', '(?i)IF', 'i?f+', '\\w+', '[a-z]+(?-u:\\b)', 'if$']),
                   ('é', ['\\p{L}', '.', '[^a]', 'é+', '(?i)É']), ('==', ['=+', '[=!]=', '={2}', '==?']), ('中a', ['\\p{Han}[a-z]', '..', '[^ ]+']),
